@@ -84,6 +84,10 @@ def run(ctx, monitors, n_docs, n_ra=0.3, n_boundary=0):
             cases.append((inp, exp, dict(stream="find", text=d, remove_ambiguous=True)))
     ctx.streams.append("find")
     core.corr_run(ctx, "pipe", P.PRE, "run_pipe", "pipe_eqb", cases, shard=25, ty=P.TY)
+    # get_citations as a function of (text, current year) only: extractor table, tokenizer, metadata and
+    # reference searches, is_valid_name all computed inside the model (Model/E2EClosed.v)
+    from harness import e2e
+    e2e.run_closed(ctx, e2e.short_docs(rng, 80 if ctx.tier == "thorough" else 10))
     # the metadata searches recomputed by the engine model on the regenerated pattern ASTs
     ctx.streams.append("regex-oracle")
     ctx.count("regex-oracle: recorded metadata searches recomputed by the engine model", len(rx_cases))
